@@ -93,6 +93,14 @@ def families(tier):
     add("F22-nested-globals", [[Rule("g", glob=True), Rule("a", [Rule("h", glob=True), Rule("c")])],
                                [Rule("g *", glob=True), Rule("a *", [Rule("h", glob=True)])],
                                [Rule("a", [Rule("g", glob=True), Rule("c", [Rule("h", glob=True), Rule("e")])])]])
+    # F23: a %rewrite rule that is itself a block with ordinary child rules (its rows are written anew as a whole, and what
+    #      is below a row that stays is still compared row by row)
+    add("F23-rewrite-block-with-plain-children", [[Rule("a *", [Rule("c *", [Rule("e *")], rewrite=True)])],
+                                                  [Rule("a", [Rule("c *", [Rule("e"), Rule("d *")], rewrite=True)])],
+                                                  # at top level (no enclosing block whose body could be replaced as a whole): the
+                                                  # block row itself is held by every configuration, only its content changes
+                                                  [Rule("a *", [Rule("c *", [Rule("e *")]), Rule("d *")], rewrite=True, mandatory=True, nkeys=1)],
+                                                  [Rule("b"), Rule("a", [Rule("c *"), Rule("d")], rewrite=True, mandatory=True)]])
     if tier == "thorough":
         # F6: depth 3
         add("F6-depth3", [[Rule("a *", [Rule("c *", [Rule(shape(s, "e"), **f)])])]
